@@ -242,9 +242,21 @@ func c25SeqClass(rt *rapid.T, n int) (uint32, string) {
 	}
 }
 
-func c25Len(rt *rapid.T, i int, last bool) (int, string) {
+func c25Len(rt *rapid.T, i int, last bool, prevMax int) (int, string) {
 	cls := rapid.IntRange(0, 99).Draw(rt, fmt.Sprintf("lenClass%d", i))
 	switch {
+	case cls >= 90 && cls < 95 && prevMax > 0:
+		// just past the largest packet this reader/writer has seen: by 1..4
+		// cipher blocks or by a MAC size
+		n := prevMax + rapid.IntRange(1, 4).Draw(rt, "stairK")*rapid.SampledFrom([]int{8, 16}).Draw(rt, "stairB") + rapid.IntRange(-1, 1).Draw(rt, "stairD")
+		if rapid.IntRange(0, 3).Draw(rt, "stairMac") == 0 {
+			n = prevMax + rapid.SampledFrom([]int{12, 16, 20, 32, 64}).Draw(rt, "stairMacSize")
+		}
+		return n, "len=staircase-past-previous-max"
+	case cls >= 95:
+		base := rapid.SampledFrom([]int{256, 1024, 1024, 32768}).Draw(rt, "bufConst")
+		n := base - rapid.IntRange(0, 100).Draw(rt, "bufOff")
+		return n, "len=around-buffer-constant"
 	case cls < 40:
 		return rapid.IntRange(1, 300).Draw(rt, "len"), "len=1..300"
 	case cls < 65:
@@ -292,7 +304,7 @@ func c25Draw(rt *rapid.T, modes []wmode) (*c25Stream, []string, string) {
 	lenSet := map[string]bool{}
 	maxLen := 0
 	for i := 0; i < n; i++ {
-		l, lc := c25Len(rt, i, i == n-1)
+		l, lc := c25Len(rt, i, i == n-1, maxLen)
 		p := fill.bytes(l)
 		// connectionState interprets SSH_MSG_NEWKEYS (21) and SSH_MSG_DISCONNECT (1)
 		if p[0] == 21 || p[0] == 1 {
@@ -454,6 +466,36 @@ func TestC25(t *testing.T) {
 		nTable += maxN
 	}
 	c.Exhaustive(fmt.Sprintf("every cipher x MAC mode (%d) x every payload length 1..%d, sequence numbers wrapping inside the stream", len(modes), maxN), len(modes)*maxN)
+
+	// ---- per-reader/writer histories around the internal buffers ------------------------
+	hists, hnames := bufferHistories()
+	nHist := 0
+	for mi, m := range modes {
+		if !ev.Mine(mi) {
+			continue
+		}
+		d := newDRBG(uint64(6000 + mi))
+		sec := makeSecrets(c25Hashes[(mi+1)%4], d, 32)
+		for hi, h := range hists {
+			s := &c25Stream{Mode: m, Sec: sec, S2C: (mi+hi)%2 == 0, StartSeq: uint32(hi * 7919), RekeyAt: -1, PadSeed: uint64(hi)}
+			for _, n := range h {
+				p := d.bytes(n)
+				if p[0] == 21 || p[0] == 1 {
+					p[0] = 94
+				}
+				s.Payloads = append(s.Payloads, p)
+			}
+			if _, err := c25Run(s, f3Listed); err != nil {
+				msg := fmt.Sprintf("history %s %v: %v", hnames[hi], h, err)
+				c.Violation(msg, "")
+				t.Fatalf("VF-VIOLATION: property=C25 %s", msg)
+			}
+			nHist++
+			c.Case(true, fmt.Sprintf("history|%v|%s|%d", m, hnames[hi], h[0]), "table:history-"+hnames[hi])
+			c.Evals(len(h) - 1)
+		}
+	}
+	c.Exhaustive("buffer-state histories per mode: first packets around the 1024/256-byte initial buffers, staircases past the previous maximum by 1..4 blocks or a MAC size with shrink-then-grow (per shard)", nHist)
 
 	// ---- AES-GCM invocation counter: byte carries and the 2^64 wrap (RFC 5647 7.1) ----
 	// (key material from a KEX hash never puts the counter near a carry, so the
